@@ -38,10 +38,6 @@ type Field struct {
 	// Context is for user provided data and is only used by the Resolvers,
 	// not this package.
 	Context interface{}
-
-	// sorted is Args in the order of the field definition's arguments with
-	// nil for arguments not provided. It is used to call reflected methods.
-	sorted []*ArgValue
 }
 
 // String representation of the instance.
@@ -118,22 +114,11 @@ func (f *Field) getArg(name string) (av *ArgValue) {
 }
 
 func (f *Field) sortArgs() (errors []error) {
-	if 0 < len(f.Args) {
-		if ot, _ := f.ConType.(*Object); ot != nil {
-			if fd := ot.fields.get(f.Name); fd != nil {
-				args := make([]*ArgValue, 0, len(f.Args))
-				for _, a := range fd.args.list {
-					args = append(args, f.getArg(a.N))
-				}
-				// Args is left as parsed so the printed form of the field does
-				// not change and undeclared arguments are reported every time
-				// the field is resolved.
-				f.sorted = args
-				errors = f.undeclaredArgs()
-			}
-		}
-	}
-	return
+	// Args is left as parsed so the printed form of the field does not change
+	// and undeclared arguments are reported every time the field is resolved.
+	// Reflected methods are called with the arguments in the order of the
+	// field definition, see formReflectArgs().
+	return f.undeclaredArgs()
 }
 
 // undeclaredArgs returns an error for each argument not declared by the field
